@@ -12,6 +12,19 @@ type Rel struct {
 	L, R ssa.Value
 	Op   token.Token
 	Kind string // "int", "bigcmp", "time", "string", "ptr"
+	// Bind maps parameters of a predicate helper the relation was taken from to the arguments of the call
+	// (isWallet(id) { return len(id) <= 42 } seen at the call isWallet(pubkey) binds id -> pubkey).
+	Bind map[*ssa.Parameter]ssa.Value
+}
+
+// Arg maps a value of the predicate helper's body to the caller's value where it is a bound parameter.
+func (r Rel) Arg(v ssa.Value) ssa.Value {
+	if p, ok := v.(*ssa.Parameter); ok {
+		if a, ok := r.Bind[p]; ok {
+			return a
+		}
+	}
+	return v
 }
 
 // Negate returns the relation that holds when r does not.
@@ -90,6 +103,31 @@ func NormCond(v ssa.Value) (Rel, bool) {
 		}
 		return Rel{L: x.X, R: x.Y, Op: x.Op, Kind: kind}, true
 	case *ssa.Call:
+		// a predicate helper with a single return: take the relation it returns, binding its parameters
+		if callee := x.Call.StaticCallee(); callee != nil && len(callee.Blocks) > 0 && callee.Signature.Results().Len() == 1 {
+			var rets []*ssa.Return
+			for _, b := range callee.Blocks {
+				for _, in := range b.Instrs {
+					if ret, ok := in.(*ssa.Return); ok {
+						rets = append(rets, ret)
+					}
+				}
+			}
+			if len(rets) == 1 && len(rets[0].Results) == 1 {
+				if r, ok := NormCond(rets[0].Results[0]); ok {
+					if r.Bind == nil {
+						r.Bind = map[*ssa.Parameter]ssa.Value{}
+					}
+					for i, prm := range callee.Params {
+						if i < len(x.Call.Args) {
+							r.Bind[prm] = x.Call.Args[i]
+						}
+					}
+					r.L, r.R = r.Arg(r.L), r.Arg(r.R)
+					return r, true
+				}
+			}
+		}
 		f := CallObj(x)
 		if f != nil && IsMethod(f, "time", "Time", f.Name()) && len(x.Call.Args) == 2 {
 			switch f.Name() {
